@@ -25,6 +25,12 @@ def fnv(b: bytes) -> int:
 
 def u32(v): return struct.pack("<I", v & M32)
 
+_GEN = {}
+def gen_bytes(n, seed):
+    """the drivers' g<n>:<seed> term"""
+    if (n, seed) not in _GEN: _GEN[(n, seed)] = bytes(((i * 131 + seed * 7 + (i >> 8)) & 0xFF) for i in range(n))
+    return _GEN[(n, seed)]
+
 class Src:
     def __init__(self, name=b"", num=0): self.name = name; self.num = num
 class Grp:
@@ -133,6 +139,7 @@ class SavedGame:
         if fields is not None: fields.append((pos, 4, "tag3", None))
         consumed = pos + 4
         expr = f"g{SKIP}:5+{hexs(beg + tag + ub)}+g{UNITS_ARRAY}:9" + (f"+g{FREE_UNITS}:2" if free else "") + f"+{hexs(tag + self.rest)}"
+        self.bytes_ = gen_bytes(SKIP, 5) + beg + tag + ub + gen_bytes(UNITS_ARRAY, 9) + (gen_bytes(FREE_UNITS, 2) if free else b"") + tag + self.rest
         return expr, consumed
     def dump(self, n):
         d = self.m.copy(); d.grps = []
@@ -183,3 +190,68 @@ def rnd_map(rng, lg=None, h=None, big=False):
                 tiles, rnd_bytes(rng, 16), srcs, maps, ters, grps, rng.choice([None, 0, 5, M32]))
 
 BOUNDARY32 = [0, 1, 2, 3, 7, 8, 9, 31, 32, 33, 255, 256, 0x100F, 0x1010, 0x1011, 65535, 65536, (1 << 31) - 1, 1 << 31, (1 << 31) + 1, M32 - 1, M32]
+
+
+# ---- reference reader (used to predict allocation requests of hostile inputs, and by the failing-input search) ----
+class _Stop(Exception):
+    def __init__(self, kind): self.kind = kind
+
+class _Rd:
+    def __init__(self, b): self.b = b; self.p = 0; self.maxalloc = 0
+    def take(self, k):
+        if self.p + k > len(self.b): raise _Stop("err")
+        r = self.b[self.p:self.p + k]; self.p += k; return r
+    def u32(self): return struct.unpack("<I", self.take(4))[0]
+    def alloc(self, nbytes):
+        self.maxalloc = max(self.maxalloc, nbytes)
+        if nbytes > ALLOC_CAP: raise _Stop("alloc")
+
+def _beginning(r):
+    tag, sg, lg, h, nsrc = (r.u32() for _ in range(5))
+    if tag < MIN_VERSION: raise _Stop("err")
+    if lg >= 32 or (h << lg) > M32: raise _Stop("err")
+    n = h << lg
+    r.alloc(4 * n)
+    tiles = list(struct.unpack(f"<{n}I", r.take(4 * n)))
+    clip = r.take(16)
+    r.alloc(40 * nsrc)
+    srcs = []
+    for _ in range(nsrc):
+        ln = r.u32(); r.alloc(ln); name = r.take(ln)
+        if ln > 8: raise _Stop("err")
+        srcs.append(Src(name, r.u32() if ln else 0))
+    if r.take(10) != MARKER: raise _Stop("err")
+    nm = r.u32(); r.alloc(8 * nm); maps = [r.take(8) for _ in range(nm)] if 8 * nm <= len(r.b) - r.p else r.take(8 * nm)
+    nt = r.u32(); r.alloc(264 * nt); ters = [r.take(264) for _ in range(nt)] if 264 * nt <= len(r.b) - r.p else r.take(264 * nt)
+    return MapV(lg, h, tag, sg, tiles, clip, srcs, maps, ters, [])
+
+def _tag(r, last):
+    t = r.u32()
+    if t < MIN_VERSION or t != last: raise _Stop("err")
+
+def parse(b: bytes, kind="m"):
+    """('ok', MapV, consumed, maxalloc) | ('err', maxalloc) | ('alloc', maxalloc)"""
+    r = _Rd(b)
+    try:
+        if kind == "s": r.take(SKIP)
+        m = _beginning(r)
+        _tag(r, m.tag)
+        if kind == "m":
+            _tag(r, m.tag)
+            ng = r.u32(); m.unknown = r.u32()
+            for _ in range(ng):
+                w = r.u32(); h = r.u32(); k = (w * h) & M32
+                r.alloc(4 * k); idx = list(struct.unpack(f"<{k}I", r.take(4 * k)))
+                ln = r.u32(); r.alloc(ln); name = r.take(ln)
+                m.grps.append(Grp(name, w, h, idx))
+        else:
+            unitCount = r.u32(); r.u32(); nextFree = r.u32(); firstFree = r.u32(); size = r.u32()
+            if size != 120 and unitCount != 0: raise _Stop("err")
+            c1 = r.u32(); c2 = r.u32()
+            r.alloc(512 * c1); r.take(512 * c1); r.alloc(4 * c2); r.take(4 * c2)
+            r.u32(); r.u32(); r.take(UNITS_ARRAY)
+            if firstFree != nextFree: r.take(FREE_UNITS)
+            _tag(r, m.tag)
+        return ("ok", m, r.p, r.maxalloc)
+    except _Stop as s:
+        return (s.kind, r.maxalloc)
